@@ -85,8 +85,11 @@ Lemma next_end : forall a b s, s <> 0 -> py_range_len a b s = 0 ->
 Proof.
   intros a b s Hs H0. pose proof (len_pos_iff a b s Hs) as P. rewrite H0 in P.
   unfold range_next, ige_s, ile_s, igt_s, ilt_s. cbn [r_next r_stop r_step].
-  destruct (0 <? s) eqn:E1;
-    repeat match goal with |- context [Z.leb ?x ?y] => destruct (Z.leb x y) eqn:? end; try reflexivity; lia.
+  destruct (0 <? s) eqn:E1; cbv beta iota zeta;
+    repeat match goal with
+           | |- context [Z.leb ?x ?y] => destruct (Z.leb x y) eqn:?
+           | |- context [Z.ltb ?x ?y] => destruct (Z.ltb x y) eqn:?
+           end; try reflexivity; lia.
 Qed.
 
 Lemma next_step : forall a b s, s <> 0 -> 0 < py_range_len a b s -> in_i64 (a + s) ->
@@ -94,8 +97,11 @@ Lemma next_step : forall a b s, s <> 0 -> 0 < py_range_len a b s -> in_i64 (a + 
 Proof.
   intros a b s Hs Hp Hin. pose proof (proj1 (len_pos_iff a b s Hs) Hp) as P.
   unfold range_next, ige_s, ile_s, igt_s, ilt_s, iadd. cbn [r_next r_stop r_step]. rewrite (wrap_s_id _ Hin).
-  destruct (0 <? s) eqn:E1;
-    repeat match goal with |- context [Z.leb ?x ?y] => destruct (Z.leb x y) eqn:? end; try reflexivity; lia.
+  destruct (0 <? s) eqn:E1; cbv beta iota zeta;
+    repeat match goal with
+           | |- context [Z.leb ?x ?y] => destruct (Z.leb x y) eqn:?
+           | |- context [Z.ltb ?x ?y] => destruct (Z.ltb x y) eqn:?
+           end; try reflexivity; lia.
 Qed.
 
 (* what __next__ does in general (no side condition): the yielded value is always `next`,
